@@ -41,7 +41,7 @@ def main():
     bad = []
     try:
         for c in ALL:
-            rc, out = sh('VERIF_TIME_BUDGET=400 ./check %s --tier quick' % c, cwd=VERIF, timeout=500)
+            rc, out = sh('VERIF_EVIDENCE_DIR=/tmp/o1722v-ev-eval VERIF_TIME_BUDGET=400 ./check %s --tier quick' % c, cwd=VERIF, timeout=500)
             if rc != 0:
                 lines = [l for l in out.split('\n') if l and not l.startswith('KNOWN-FINDING') and 'conda' not in l]
                 first = [l for l in lines if not l.startswith('VIOLATION')][:3]
